@@ -20,6 +20,13 @@ structure ACase where
   vals : List Val
   deriving FromJson
 
+structure SCase where
+  spec : ColSpec
+  ix : Option ColSpec
+  sname : Option String
+  frame : Frame
+  deriving FromJson
+
 def kRegion (S : Schema) (D : Frame) : Bool :=
   S.columns.any (fun spec => (targets spec D).any (fun n =>
     match D.col? n, spec.dtype with
@@ -63,6 +70,21 @@ def answer (j : Json) : Except String Json := do
     return Json.mkObj [
       ("doc", toJson (c.vals.map (docPred c.b))),
       ("gen", toJson (c.vals.map (evalVia Generated.pandasBuiltins c.b)))]
+  | .ok (.str "series") =>
+    let c : SCase ← fromJson? j
+    let errs := seriesErrors Generated.generatedScopes .schemaAndData c.spec c.ix c.sname c.frame
+    let (ok, inK) := match c.frame.cols, c.frame.index with
+      | [col], [l] =>
+        (decide (Spec.fieldOk c.spec c.sname col.dtype col.vals
+                 ∧ ∀ i, c.ix = some i → Spec.fieldOk i l.name l.dtype l.vals),
+         (match c.spec.dtype with | some t => K_C01_strVacuous t col.dtype col.vals | none => false)
+         || (match c.ix with
+             | some i => (match i.dtype with | some t => K_C01_strVacuous t l.dtype l.vals | none => false)
+             | none => false))
+      | _, _ => (false, false)
+    return Json.mkObj [
+      ("wf", toJson (c.frame.WF && c.frame.cols.length == 1 && c.frame.index.length == 1)),
+      ("errors", toJson errs), ("accepts", toJson errs.isEmpty), ("sat", toJson ok), ("inK", toJson inK)]
   | .ok (.str "aggregate") =>
     let c : ACase ← fromJson? j
     return Json.mkObj [("uniqueValuesEq", toJson (uniqueValuesEq c.vs true c.vals))]
